@@ -140,6 +140,9 @@ func (t *tr2) assignedOutside(n ast.Node, exclude ...types.Object) []types.Objec
 				}
 			}
 		case *ast.CallExpr:
+			if id, ok := x.Fun.(*ast.Ident); ok && t.genYield != nil && t.info.Uses[id] == t.genYield {
+				add(id)
+			}
 			if tgt, m, _, ok := t.atomicCall(x); ok && (m == "Add" || m == "Store" || m == "CompareAndSwap") {
 				add(tgt)
 			}
@@ -449,10 +452,18 @@ func (t *tr2) retStmt(r *ast.ReturnStmt, c *fctx) string {
 		if res.Len() == 0 {
 			return c.ret("tt")
 		}
+		if t.genYield != nil { // inside a generator closure: the generation ends here
+			return c.ret(t.genFin)
+		}
 		t.fail(r, "bare return unsupported")
 		return "GPanic"
 	}
 	var bs []bind
+	if fl, ok := r.Results[0].(*ast.FuncLit); ok && len(r.Results) == res.Len() {
+		if _, isSeq := seqElem(res.At(0).Type()); isSeq {
+			return t.generator(r, fl, c)
+		}
+	}
 	if len(r.Results) == 1 && res.Len() > 1 {
 		v := t.expr(r.Results[0], &bs) // return f(...)
 		return wrapBinds(bs, c.ret(v))
@@ -486,6 +497,9 @@ func (t *tr2) stmt(s ast.Stmt, c *fctx, rest func() string) string {
 	case *ast.EmptyStmt:
 		return rest()
 	case *ast.ExprStmt:
+		if call, ok := t.yieldCall(x.X); ok {
+			return t.yieldStmt(call, rest)
+		}
 		return t.exprStmt(x, c, rest)
 	case *ast.BranchStmt:
 		if x.Label != nil {
@@ -702,6 +716,13 @@ func (t *tr2) ifStmt(x *ast.IfStmt, c *fctx, rest func() string) string {
 			return t.ifStmt(&y, c, rest)
 		})
 	}
+	if u, ok := x.Cond.(*ast.UnaryExpr); ok && u.Op == token.NOT && x.Else == nil && len(x.Body.List) == 1 {
+		if call, isY := t.yieldCall(u.X); isY {
+			if rs, isR := x.Body.List[0].(*ast.ReturnStmt); isR && len(rs.Results) == 0 {
+				return t.yieldStmt(call, rest) // the consumer drains the sequence: yield answers true
+			}
+		}
+	}
 	var cb []bind
 	cond := t.expr(x.Cond, &cb)
 	if !escapes(x.Body) && !escapes(x.Else) {
@@ -871,6 +892,18 @@ func (t *tr2) rangeStmt(x *ast.RangeStmt, c *fctx, rest func() string) string {
 	case isString(xt):
 		t.fail(x, "range over a string yields runes (UTF-8 decoding): unsupported; index its bytes instead")
 		return rest()
+	case func() bool { _, ok := seqElem(xt); return ok }():
+		if escapes(x.Body) {
+			t.fail(x, "a range over an iter.Seq must drain it: break / return / continue in its body unsupported")
+			return rest()
+		}
+		if x.Value != nil {
+			t.fail(x, "range over an iter.Seq has one variable")
+			return rest()
+		}
+		en, _ := seqElem(xt)
+		r := t.record(en)
+		loop = "(range_loop (R:=" + c.rty + ") (fun (_ : Z) (" + k + " : " + t.q(r.mod, r.name) + ") " + funPat(pat) + " =>\n " + body + ") 0 " + xs + " " + val + ")"
 	case isBytes(xt), isBoolList(xt), func() bool { _, ok := t.isStructList(xt); return ok }():
 		ety := "Z"
 		if isBoolList(xt) {
@@ -899,6 +932,7 @@ func (t *tr2) forStmt(x *ast.ForStmt, c *fctx, rest func() string) string {
 		t.fail(x, "for loop outside the subset (%s); supported: for i := lo; i < hi; i++ with i and hi unchanged in the body, and range loops", why)
 		return rest()
 	}
+	stride := int64(1)
 	init, ok := x.Init.(*ast.AssignStmt)
 	if !ok || init.Tok != token.DEFINE || len(init.Lhs) != 1 || len(init.Rhs) != 1 {
 		return bad("init")
@@ -925,9 +959,13 @@ func (t *tr2) forStmt(x *ast.ForStmt, c *fctx, rest func() string) string {
 		if len(p.Rhs) == 1 {
 			cv, cc := constIntOf(t.info, p.Rhs[0])
 			one = cc && cv == 1
+			if cc && cv > 1 {
+				stride = cv
+				one = true
+			}
 		}
 		if pi, ok := p.Lhs[0].(*ast.Ident); !ok || len(p.Lhs) != 1 || t.info.Uses[pi] != io || p.Tok != token.ADD_ASSIGN || !one {
-			return bad("post is not i += 1")
+			return bad("post is not i += k for a positive constant k")
 		}
 	default:
 		return bad("post")
@@ -962,6 +1000,14 @@ func (t *tr2) forStmt(x *ast.ForStmt, c *fctx, rest func() string) string {
 	t.loops = append(t.loops, x)
 	body := t.stmts(x.Body.List, lc, func() string { return lc.next })
 	t.loops = t.loops[:len(t.loops)-1]
+	if stride > 1 {
+		// for i := lo; i < hi; i += k: iteration j (j = 0 ..) runs with i = lo + j*k while that is
+		// below hi. Go's i += k must not overflow before the test: hi <= MaxInt64 - k is required
+		// (GPanic otherwise: stricter than Go, like the capacity rule).
+		k := strconv.FormatInt(stride, 10)
+		loop := "(stride_loop (R:=" + c.rty + ") (fun " + ident(iv.Name) + " " + funPat(pat) + " =>\n " + body + ") " + lo + " " + hi + " " + k + " " + val + ")"
+		return wrapBinds(pre, "(loop_k "+loop+"\n (fun "+funPat(pat)+" =>\n "+rest()+")\n (fun r_ => "+c.ret("r_")+"))")
+	}
 	loop := "(count_loop (R:=" + c.rty + ") (fun " + ident(iv.Name) + " " + funPat(pat) + " =>\n " + body + ") " + lo + " " + hi + " " + val + ")"
 	return wrapBinds(pre, "(loop_k "+loop+"\n (fun "+funPat(pat)+" =>\n "+rest()+")\n (fun r_ => "+c.ret("r_")+"))")
 }
@@ -1078,4 +1124,58 @@ func (t *tr2) selectStmt(x *ast.SelectStmt, c *fctx, rest func() string) string 
 	}
 	t.fail(comm, "select case outside the subset")
 	return rest()
+}
+
+// generator: `return func(yield func(T) bool) { ... }, rest...` with result type iter.Seq[T]. The
+// closure body is translated in place with the yield parameter standing for the list yielded so
+// far: yield(v) appends v; `if !yield(v) { return }` appends v and goes on (the consumer drains
+// the sequence: checked at every range over a Seq); a bare return ends the generation.
+func (t *tr2) generator(r *ast.ReturnStmt, fl *ast.FuncLit, c *fctx) string {
+	res := t.sig.Results()
+	if t.genYield != nil || len(t.loops) > 0 || fl.Type.Params == nil || len(fl.Type.Params.List) != 1 || len(fl.Type.Params.List[0].Names) != 1 {
+		t.fail(fl, "generator closure outside the subset")
+		return "GPanic"
+	}
+	yid := fl.Type.Params.List[0].Names[0]
+	yo := t.info.Defs[yid]
+	var bs []bind
+	others := []string{}
+	for i := 1; i < len(r.Results); i++ {
+		others = append(others, t.exprAs(r.Results[i], res.At(i).Type(), &bs))
+	}
+	if len(bs) > 0 {
+		t.fail(r, "results returned next to a generator must be plain values")
+	}
+	acc := ident(yid.Name)
+	fin := acc
+	if len(others) > 0 {
+		fin = "(" + acc + ", " + strings.Join(others, ", ") + ")"
+	}
+	gc := &fctx{rty: c.rty, ret: c.ret}
+	t.genYield, t.genFin = yo, fin
+	body := t.stmts(fl.Body.List, gc, func() string { return c.ret(fin) })
+	t.genYield, t.genFin = nil, ""
+	return "(let " + acc + " := [] in\n " + body + ")"
+}
+
+// yieldCall: yield(v) inside a generator closure.
+func (t *tr2) yieldCall(e ast.Expr) (*ast.CallExpr, bool) {
+	call, ok := e.(*ast.CallExpr)
+	if !ok || t.genYield == nil || len(call.Args) != 1 {
+		return nil, false
+	}
+	id, ok := call.Fun.(*ast.Ident)
+	if !ok || t.info.Uses[id] != t.genYield {
+		return nil, false
+	}
+	return call, true
+}
+
+func (t *tr2) yieldStmt(call *ast.CallExpr, rest func() string) string {
+	var bs []bind
+	sig := t.genYield.Type().(*types.Signature)
+	v := t.exprAs(call.Args[0], sig.Params().At(0).Type(), &bs)
+	acc := ident(t.genYield.Name())
+	bs = append(bs, bind{let: true, pat: acc, rhs: "(" + acc + " ++ [" + v + "])"})
+	return wrapBinds(bs, rest())
 }
